@@ -1620,6 +1620,12 @@ MA('C18', 'post-processing reads the stride of the first axis', FTU,
 MA('C18', 'post-processing reads the minimum of the wrong axis', FTU,
    'dft_postprocess_data', 'x = real_grid.min_pt[ax]',
    'x = real_grid.min_pt[len(onedim_arrs)]', 'R2c')
+MA('C11', 'osmlem normalises the data in place', 'odl/solvers/iterative/statistical.py',
+   'osmlem', 'data[i].divide(tmp_ran[i], out=tmp_ran[i])',
+   'data[i].divide(tmp_ran[i], out=data[i])\ntmp_ran[i].assign(data[i])', 'R2i')
+MA('C11', 'landweber accumulates the residual in the right-hand side', ITERF,
+   'landweber', 'tmp_ran -= rhs', 'rhs -= tmp_ran\ntmp_ran.lincomb(-1, rhs)',
+   'R2i')
 M('C15', 'element from a callable no longer owns its data (regression)', 'odl/discr/discr_space.py',
   "                sampled = np.array(sampled, copy=True)",
   "                pass", 'C15-R4c')
